@@ -98,7 +98,7 @@ func (l *Loader) responseCacheCollect(prepared *preparedFetch) error {
 	}
 
 	res := prepared.res
-	if res.err != nil || len(res.out) == 0 || res.statusCode >= 400 {
+	if res.err != nil || len(res.out) == 0 || res.statusCode >= 300 {
 		// A failed fetch is not cacheable, which is not a collection failure and is
 		// handled at other locations.
 		return nil //nolint:nilerr
